@@ -133,6 +133,9 @@ pub struct Config {
     /// with two services on the thread, the second one is of the other TLS backend
     #[serde(default)]
     mixed: bool,
+    /// the server reads with a 512-byte buffer (less than one transport read decrypts)
+    #[serde(default)]
+    small_reads: bool,
 }
 
 #[derive(Serialize, Deserialize, Clone, Debug, PartialEq)]
@@ -254,6 +257,8 @@ struct Conn {
     s_shutting: bool,
     s_shut: bool,
     s_reads: u32,
+    /// the server's last read returned Pending and nothing has been delivered to it since
+    read_pending: bool,
 }
 
 fn payload(seed: u64, len: usize, salt: u64) -> Vec<u8> {
@@ -502,7 +507,7 @@ async fn run_accept(cfg: &Config, ch: &mut Chooser<Action>, ctx: &mut RunCtx) ->
                         pick = Some(Action::CliWrite(i, 16000));
                     } else if !c.outbox.is_empty() {
                         pick = Some(Action::ClientSend(i, 0));
-                    } else if c.s_read.len() < c.p_c2s.len() && !c.s_flushed && !c.c2s.borrow().buf.is_empty() {
+                    } else if c.s_read.len() < c.p_c2s.len() && !c.s_flushed && (!c.c2s.borrow().buf.is_empty() || !c.read_pending) {
                         pick = Some(Action::SrvRead(i));
                     } else if c.s_written < c.p_s2c.len() {
                         // the server can only make progress if the client drains the pipe
@@ -571,6 +576,7 @@ async fn run_accept(cfg: &Config, ch: &mut Chooser<Action>, ctx: &mut RunCtx) ->
                     s_shutting: false,
                     s_shut: false,
                     s_reads: 0,
+                    read_pending: false,
                 };
                 c.pump_client_out();
                 conns.push(c);
@@ -690,6 +696,7 @@ async fn run_accept(cfg: &Config, ch: &mut Chooser<Action>, ctx: &mut RunCtx) ->
                 let n = duplex::delivery_len(&c.outbox, frac, &mut c.out_tail);
                 let data: Vec<u8> = c.outbox.drain(..n).collect();
                 c.c2s.borrow_mut().push(&data);
+                c.read_pending = false;
                 c.sends += 1;
                 ev!(ctx, "client #{i} delivers (mode {frac})");
             }
@@ -840,7 +847,7 @@ async fn run_accept(cfg: &Config, ch: &mut Chooser<Action>, ctx: &mut RunCtx) ->
                 let c = &mut conns[i];
                 let (_f, w) = c.io_task.fresh();
                 let mut cx = Context::from_waker(&w);
-                let mut buf = vec![0u8; 8192];
+                let mut buf = vec![0u8; if cfg.small_reads { 512 } else { 8192 }];
                 let mut rb = ReadBuf::new(&mut buf);
                 // every other read goes into a buffer that already holds something (read_exact
                 // style): what was there stays, what is read is appended
@@ -856,11 +863,31 @@ async fn run_accept(cfg: &Config, ch: &mut Chooser<Action>, ctx: &mut RunCtx) ->
                             ctx.bump("probe.read_into_partly_filled_buffer");
                         }
                         let got = rb.filled()[pre.len()..].to_vec();
+                        if got.is_empty() {
+                            // end of stream: nothing more will come out without new input
+                            c.read_pending = true;
+                        }
                         c.s_read.extend_from_slice(&got);
                         ev!(ctx, "server #{i} reads");
                     }
                     Poll::Ready(Err(_)) => c.stream = None,
-                    Poll::Pending => {}
+                    Poll::Pending => {
+                        c.read_pending = true;
+                        // everything the client wrote has been delivered and taken off the
+                        // transport: whatever is still unread sits decrypted inside the TLS
+                        // stream, and a read must hand it out instead of waiting for the peer
+                        // (a client that is still handshaking keeps what it wrote as plaintext)
+                        if c.outbox.is_empty() && !c.client.is_handshaking() && !c.client.wants_write() && c.c2s.borrow().buf.is_empty() && !c.cut && c.s_read.len() < c.c_written {
+                            return Some(
+                                Violation::new(
+                                    "payload-withheld",
+                                    format!("stream {i}: the client wrote {} bytes, all delivered and consumed by the server's TLS stream, but a read returns Pending after {} bytes", c.c_written, c.s_read.len()),
+                                )
+                                .fact("acceptor", format!("{:?}", cfg.kind)),
+                            );
+                        }
+                        ctx.bump("probe.server_read_pending");
+                    }
                 }
             }
             Action::CliWrite(i, chunk) => {
@@ -993,6 +1020,7 @@ impl Engine for TlsSim {
             w_advance: *rng.pick(&[1, 2, 4]),
             stall_client: bulk,
             mixed: rng.chance(1, 3),
+            small_reads: rng.chance(1, 3),
         }
     }
     fn max_actions(_: &str, cfg: &Config) -> usize {
@@ -1055,7 +1083,7 @@ impl Engine for TlsSim {
     }
     fn required_probes(prop: &str, _tier: Tier) -> Vec<&'static str> {
         if prop == "C18" {
-            vec!["probe.timeout_outcome", "probe.tls_error_outcome", "probe.stream_outcome", "probe.not_ready_at_limit", "probe.release_at_limit", "probe.payload_roundtrip", "probe.server_write_backpressure", "probe.server_vectored_write", "probe.server_vectored_write_partial", "probe.server_vectored_write_cut_in_second_slice", "probe.two_backends_on_one_thread", "probe.server_shutdown_completed", "probe.shutdown_under_backpressure", "probe.vectored_write_empty_first_slice", "probe.read_into_partly_filled_buffer"]
+            vec!["probe.timeout_outcome", "probe.tls_error_outcome", "probe.stream_outcome", "probe.not_ready_at_limit", "probe.release_at_limit", "probe.payload_roundtrip", "probe.server_write_backpressure", "probe.server_vectored_write", "probe.server_vectored_write_partial", "probe.server_vectored_write_cut_in_second_slice", "probe.two_backends_on_one_thread", "probe.server_shutdown_completed", "probe.shutdown_under_backpressure", "probe.vectored_write_empty_first_slice", "probe.read_into_partly_filled_buffer", "probe.server_read_pending"]
         } else {
             connsim::required_probes()
         }
